@@ -22,6 +22,8 @@ Methods == { [api |-> "etcd",  m |-> "Txn",           kind |-> "write"],
              [api |-> "etcd",  m |-> "RangeAtRev",    kind |-> "read"],     \* a Range that names its revision
              [api |-> "etcd",  m |-> "CountAtRev",    kind |-> "read"],     \* count-only, with a revision
              [api |-> "etcd",  m |-> "ListPartition", kind |-> "read"],     \* a Range with the partition-listing magic revision
+             [api |-> "etcd",  m |-> "RangeOptions",  kind |-> "read"],     \* a Range with the option fields of the etcd API set (serializable, keys-only, limit)
+             [api |-> "etcd",  m |-> "GetSerializable", kind |-> "read"],   \* a point read marked serializable
              [api |-> "etcd",  m |-> "Watch",         kind |-> "watch"],
              [api |-> "etcd",  m |-> "RangeStream",   kind |-> "read"],     \* a watch request with a negative start revision
              [api |-> "brain", m |-> "Create",        kind |-> "write"],
